@@ -154,4 +154,15 @@ PROPS = {
         "trusted_base": [],
         "assumptions": ["label/field/tag subsections and names of unused locals may be dropped (stated in the property)"],
     },
+    "C19": {
+        "claim": "Lean theorems over the maps the module model itself uses: a type index maps to an id that denotes a type with exactly the input's signature (type_index_denotes_its_signature: de-duplication merges only equal signatures), out-of-range indices are absent, every other index space maps index i to the arena slot of its i-th entity (imports first); at emit time the index reported for a function / type id is the position at which it is emitted (emitted_function_index_exact, emitted_type_index_exact, for any list with distinct ids). Correspondence: the parse-time map read inside on_parse (all spaces incl. locals, plus two indices past the end) and the emit-time map read inside CustomSection::data are predicted exactly. Oracle independent of the model: each id's entity is compared with the independently decoded input entity at that index (attributes, import names, body ranges, local types); each id is followed to its output index through unique tracer names, also after a GC run.",
+        "level_note": "Trusted: Lean kernel; hand model of IndicesToIds/IdsToIndices pushes (sampled against the code); the oracle's tracer names rely on C13 (checked independently).",
+        "technique": "Lean 4 proof over the index maps + exact-prediction correspondence + attribute / tracer-name oracle",
+        "lean_modules": ["Walrus.Props.C19"],
+        "suites": [{"name": "maps"}],
+        "rule": "generated valid modules (MVP / full / random feature mix) with imports of every kind, duplicate types, data-count present and absent; every third case runs the GC pass before emitting (emit-time map only). Non-trivial: module with imports and more than one local function; distinct by request",
+        "strength": "full for types and functions (de-duplication / ordering lemmas) and identity spaces; locals by correspondence + oracle",
+        "trusted_base": [],
+        "assumptions": [],
+    },
 }
